@@ -185,3 +185,38 @@ def gen_c09_pool(rng, n_ident=5):
                 img["path"] = "p/img-%d.iso" % len(imgs)
                 imgs.append(img)
     return imgs
+
+
+def gen_c10_content(rng, max_variants=3):
+    """Canonical current-format layout: binary images under their own arch, source images (arch 'src')
+    under EVERY binary arch of their variant - so that a 1.0/1.1 down-conversion with a 'src' key is
+    the exact inverse of the documented upgrade."""
+    rel = {"short": pick(rng, pools.SHORTS), "version": pick(rng, pools.VERSIONS_NUM)}
+    K = {"compose": pools.compose(rng, rel), "imgs": [], "cells": []}
+    seen = set()
+
+    def fresh(arch):
+        for _ in range(30):
+            img = gen_image(rng, len(K["imgs"]), arch=arch)
+            img["unified"] = False
+            img["additional_variants"] = []
+            key = (img["type"], img["format"], img["arch"], img["disc_number"])     # unique even without subvariant
+            if key not in seen:
+                seen.add(key)
+                K["imgs"].append(img)
+                return len(K["imgs"]) - 1
+        return None
+    for variant in subset(rng, VARIANTS, 1, max_variants):
+        arches = subset(rng, pools.ARCHES, 1, 3)
+        for a in arches:
+            for _ in range(rng.randint(0, 2)):
+                i = fresh(a)
+                if i is not None:
+                    K["cells"].append((variant, a, i))
+        for _ in range(rng.randint(0, 2)):
+            i = fresh("src")
+            if i is not None:
+                for a in arches:
+                    K["cells"].append((variant, a, i))
+    K["cells"] = sorted(set(K["cells"]))
+    return K
